@@ -183,8 +183,9 @@ class Run:
             self.samples.append({"check": check, "input": inp})
 
     def fail(self, check, inp, observed, klass=""):
-        if len(self.violations) < 20:
-            self.violations.append({"check": check, "klass": klass or check, "input": inp, "observed": str(observed)[:400]})
+        k = klass or check
+        if sum(1 for v in self.violations if v["klass"] == k) < 4 and len(self.violations) < 40:
+            self.violations.append({"check": check, "klass": k, "input": inp, "observed": str(observed)[:400]})
 
     def out(self):
         return {"property": self.prop, "tier": self.tier, "seed": self.seed, "evaluations": self.evaluations, "distinct_nontrivial": len(self.distinct),
